@@ -43,7 +43,11 @@ OpProbes ==
                    FStr(<<T("s="), Bin("+", V("s"), T("z")), T(" c="), Call("twice_s", <<V("s")>>), T(".")>>),
                    FStr(<<T("grouping "), Bin("-", V("n"), Bin("-", V("n"), I(1)))>>) } }
   \cup { Probe("ifexpr", <<>>, <<DI("a", p)>>, <<Def("z", TRUE, "Str", IfE(Bin(">", V("a"), I(3)), StrL("big"), StrL("small"))), P(V("z")),
-                                                 Def("w", TRUE, "Int", IfE(Bin("=", V("a"), I(3)), I(1), IfE(Bin("<", V("a"), I(3)), I(2), I(3)))), P(V("w"))>>, FALSE) : p \in {1, 3, 5} }
+                                                 Def("w", TRUE, "Int", IfE(Bin("=", V("a"), I(3)), I(1), IfE(Bin("<", V("a"), I(3)), I(2), I(3)))), P(V("w")),
+                                                 \* a conditional in the THEN position of another one (every truth combination over p)
+                                                 Def("x", TRUE, "Int", IfE(Bin(">", V("a"), I(4)), IfE(Bin(">", V("a"), I(0)), I(5), I(9)), I(0))), P(V("x")),
+                                                 Def("y", TRUE, "Int", IfE(Bin("<", V("a"), I(2)), IfE(Bin("<", V("a"), I(4)), I(6), I(7)), I(8))), P(V("y"))>>, FALSE) : p \in {1, 3, 5} }
+         \* (a conditional as the CONDITION of another one cannot be inferred today)
   \* the block form of the conditional as right-hand side of a definition (typed, untyped, tuple of targets)
   \cup { Probe("ifexpr-block", <<>>, <<DI("a", p)>>, <<Def("z", TRUE, ty, IfEB(Bin(">", V("a"), I(3)), StrL("big"), StrL("small"))), P(V("z"))>>, FALSE) : p \in {1, 5}, ty \in {"Str", ""} }
   \cup { Probe("ifexpr-block-tuple", <<>>, <<DI("a", p)>>, <<DefTup(<<"m", "n">>, TRUE, IfEB(Bin("<", V("a"), I(3)), TupL(<<I(1), StrL("s")>>), TupL(<<I(2), StrL("t")>>))),
